@@ -50,6 +50,28 @@ pub(crate) mod k {
         }
     }
 
+    // callee contract of Arc::center: any point at all - the centre is NaN when the chord is longer than the
+    // diameter (the arc of U+2939 is one), so callers must be total on NaN coordinates too
+    pub(crate) static mut CENTER: (f32, f32) = (0.0, 0.0);
+    pub(crate) fn stub_center(_a: &Arc) -> Point {
+        unsafe { Point::new(CENTER.0, CENTER.1) }
+    }
+
+    /// C01 / C05: total for every arc and every centre (NaN included); true exactly when the centre is
+    /// axis-aligned with both end points
+    #[kani::proof]
+    #[kani::stub(crate::buffer::fragment_buffer::fragment::arc::Arc::center, stub_center)]
+    pub(crate) fn check_is_aabb_right_angle_arc() {
+        let a = any_arc_full();
+        let c: (f32, f32) = (kani::any(), kani::any());
+        unsafe { CENTER = c };
+        kani::cover!(c.0.is_nan());
+        kani::cover!(c.0 == a.start.x && c.1 == a.end.y);
+        let r = a.is_aabb_right_angle_arc();
+        let want = (c.0 == a.start.x && c.1 == a.end.y) || (c.0 == a.end.x && c.1 == a.start.y);
+        assert!(r == want, "aligned centre");
+    }
+
     #[kani::proof]
     #[kani::solver(cvc5)]
     pub(crate) fn check_arc_scale() {
